@@ -8,6 +8,7 @@ import ReuseVerif.Lemmas.C07Scan
 import ReuseVerif.Lemmas.C07Closed
 import ReuseVerif.Lemmas.C07Window
 import ReuseVerif.Theorems.C02
+import ReuseVerif.Theorems.C11
 
 namespace C07
 open Py Model Spec
@@ -667,5 +668,278 @@ example : commentStyleName "MA\u212aEFILE".toList = some "PythonCommentStyle" :=
 -- `createNewHeader` / `annotateText`, `noIgnoreStart`, `tagsCompose`) involve the well-founded regex matcher,
 -- which `decide` does not unfold; the compiled driver evaluates them on every case of the streams `newheader`
 -- (several hundred successes per run), `annotate` and `filetie` (hypotheses hold on about a third of the cases).
+
+/-! ## Through the command: the composed end-to-end model (`Model/AnnotateE2E.lean`)
+
+The statements above are about the text level (`annotateText` for *a* configuration and *a*
+text).  The composed model says which configuration and which text the command feeds it — the
+style of the *written* path, the template found below `.reuse/templates/`, the information
+`get_reuse_info` builds from the command line, the text at `FILE.license` when that is where the
+header goes — so they become statements about `reuse annotate` itself. -/
+
+section E2E
+open Model.AE Spec.AE Spec.Eff
+open Model.Eff hiding Text World Style
+
+/-- **C07 through the command.**  Exit status 0, and the loop body attempts `t` for a path `p` of
+    the invocation (it is not skipped as unrecognised or because of `--skip-existing`) ⇒ after the
+    command `t` holds — behind its byte order mark, in its own line-ending convention —
+    `pre ++ hdr ++ "\n" ++ post` where `pre` is empty or ends a line and `hdr` is a header block
+    from which the tool's own extraction reads every copyright line and licence expression asked
+    for on the command line (`requested`: prefix, year rule, expressions as the parser prints
+    them), plus everything the replaced header block of `t` declared.
+    (`C07_never_success_without_readback` instantiated with the configuration, text and written
+    path the command chooses; without `--merge-copyrights`, for which see C09_merge.) -/
+theorem C07_e2e_readback (w : AE.World) (o : Opts) (fs : Fs) (ps : List Path) (p t : Path) (txt : Text)
+    (hc : clickRejects w o = false)
+    (hpre : preflight (envOf w o fs) (argsOf o) fs = .ok ps) (hsep : Separate ps) (hwf : ∀ q ∈ ps, WfPath q)
+    (hnl : ∀ q ∈ ps, ∀ x ∈ writeSet q, Fs.isLink fs x = false)
+    (hexit : (annotateE2E w o fs).2 = 0)
+    (hp : p ∈ ps) (hatt : attempt (envOf w o fs) (argsOf o) fs p = some (t, txt))
+    (hmerge : o.mergeCopyrights = false) (hnorm : ∀ x, w.normLic (w.normLic x) = w.normLic x) :
+    ∃ s pre hdr post,
+      styleFor o t = some s ∧
+      (annotateE2E w o fs).1 t = some (.file (bomOf txt ++
+        retranslate (detectLineEnding (dropBom txt)) (pre ++ hdr ++ ['\n'] ++ post))) ∧
+      (pre = [] ∨ ∃ q, pre = q ++ ['\n']) ∧
+      Declares w.normLic (extractRaw hdr) (requested w o).cpr (requested w o).lic ∧
+      (let old := oldHeader (cfgFor w o fs s) (!o.noReplace) (workText txt)
+       old ≠ [] → Declares w.normLic (extractRaw hdr) (extractRaw old).cpr (extractRaw old).lic) := by
+  obtain ⟨hu, hnr⟩ := (C11.C11_e2e_exit w o fs ps hc hpre hsep hwf hnl).2.mp hexit p hp t txt hatt
+  have hfin := C11.C11_e2e_each_alone w o fs ps p t txt hc hpre hsep hwf hp
+    (hnl p hp _ (by simp [writeSet])) hatt
+  cases hb : build w o (tmplOf w o fs) t txt with
+  | error e =>
+    rcases (build_error_iff w o fs t txt).mp ⟨e, hb⟩ with h | h
+    · rw [hu] at h; cases h
+    · exact (hnr h).elim
+  | ok out =>
+    rw [hb] at hfin
+    obtain ⟨s, out', hs, hA, hout⟩ := build_ok_text hb
+    obtain ⟨pre, hdr, post, h1, h2, h3, h4⟩ :=
+      C07_never_success_without_readback (hdrCfg w o (tmplOf w o fs) s) (!o.noReplace) false (requested w o)
+        (dropBom txt) out' hmerge hnorm hA
+    exact ⟨s, pre, hdr, post, hs, by rw [hfin, hout, h1], h2, h3, h4⟩
+
+/-- **The written path is the one lint reads.**  `reuse lint` takes the information of `FILE` from
+    `FILE.license` when that exists and from `FILE` otherwise (`_determine_license_path`,
+    `Eff.licPath`).  For a file `q` named on the command line (not itself a `.license` name) whose
+    path of the loop is `licPath fs q`: when the body attempts `t` and the header is built, then in
+    the tree the command leaves, `licPath` of `q` is `t` — annotate wrote where lint looks, whichever
+    of the routes (in place, existing sibling, created sibling, fallback) was taken. -/
+theorem C07_e2e_written_is_lint_source (w : AE.World) (o : Opts) (fs : Fs) (ps : List Path) (q t : Path)
+    (txt out : Text)
+    (hc : clickRejects w o = false)
+    (hpre : preflight (envOf w o fs) (argsOf o) fs = .ok ps) (hsep : Separate ps) (hwf : ∀ r ∈ ps, WfPath r)
+    (hq : WfPath q) (hqs : hasLicSuffix q = false) (hp : licPath fs q ∈ ps)
+    (hnl : Fs.isLink fs (sibling q) = false)
+    (hatt : attempt (envOf w o fs) (argsOf o) fs (licPath fs q) = some (t, txt))
+    (hb : build w o (tmplOf w o fs) t txt = .ok out) :
+    licPath (annotateE2E w o fs).1 q = t ∧ (annotateE2E w o fs).1 t = some (.file out) := by
+  have hls : licSuffix q = sibling q := by simp [licSuffix, hqs]
+  have hmem := attempt_mem_writeSet hatt
+  rw [C11.C11_e2e_run w o fs hc]
+  simp only [annotate, hpre]
+  by_cases hex : Fs.pathExists fs (sibling q) = true
+  · -- FILE.license exists: it is the path of the loop, and the only position of its write set
+    have hlp : licPath fs q = sibling q := by simp [licPath, hex]
+    rw [hlp] at hatt hp hmem
+    have ht : t = sibling q := writeSet_sibling hq hmem
+    subst ht
+    have hnl' : Fs.isLink fs (licSuffix (sibling q)) = false := by rw [licSuffix_sibling hq]; exact hnl
+    have hw := step_writes (envOf w o fs) (argsOf o) fs (sibling q) (sibling q) txt out (hwf _ hp) hnl' hatt hb
+    have hfin := C11.C11_each_alone (envOf w o fs) (argsOf o) fs ps hsep hwf (sibling q) hp (sibling q) (by simp [claim])
+    rw [hfin, hw.1]
+    refine ⟨?_, rfl⟩
+    simp [licPath, Fs.pathExists, hfin, hw.1]
+  · -- no FILE.license: the path of the loop is FILE; the header goes into FILE or into a new FILE.license
+    have hlp : licPath fs q = q := by simp [licPath, hex]
+    rw [hlp] at hatt hp hmem
+    have hnone : fs (sibling q) = none := by
+      cases hfs : fs (sibling q) with
+      | none => rfl
+      | some n =>
+        cases n with
+        | file c => simp [Fs.pathExists, hfs] at hex
+        | dir => simp [Fs.pathExists, hfs] at hex
+        | link tgt => simp [Fs.isLink, hfs] at hnl
+    have hnl' : Fs.isLink fs (licSuffix q) = false := by rw [hls]; exact hnl
+    have hw := step_writes (envOf w o fs) (argsOf o) fs q t txt out hq hnl' hatt hb
+    have hfin : ∀ x ∈ claim q, (runSteps (envOf w o fs) (argsOf o) fs ps).1 x = (step (envOf w o fs) (argsOf o) fs q).1 x :=
+      fun x hx => C11.C11_each_alone (envOf w o fs) (argsOf o) fs ps hsep hwf q hp x hx
+    have ht : t = q ∨ t = sibling q := by
+      simp only [writeSet, hls, licSuffix_sibling hq, List.mem_cons, List.not_mem_nil, or_false] at hmem
+      rcases hmem with h | h | h
+      · exact .inl h
+      · exact .inr h
+      · exact .inr h
+    rcases ht with ht | ht
+    · subst ht
+      have hsq : sibling t ≠ t := sibling_ne_self t
+      refine ⟨?_, by rw [hfin t (by simp [claim]), hw.1]⟩
+      have : (runSteps (envOf w o fs) (argsOf o) fs ps).1 (sibling t) = none := by
+        rw [hfin _ (by simp [claim]), hw.2.2 _ hsq, hnone]
+      simp [licPath, Fs.pathExists, this]
+    · subst ht
+      have : (runSteps (envOf w o fs) (argsOf o) fs ps).1 (sibling q) = some (.file out) := by
+        rw [hfin _ (by simp [claim]), hw.1]
+      exact ⟨by simp [licPath, Fs.pathExists, this], this⟩
+
+/-- the hypotheses of `C07_lint_reads_back` for one written text (all decidable but the
+    quantification over the parts, which `headerParts` determines) -/
+def LintReadable (c : HdrCfg) (replace : Bool) (info : Extracted) (text out : Text) : Prop :=
+  (∀ p, headerParts c replace info (Py.replace text ['\n'] ['\n']) = .ok p → tagLinesClosed Generated.endRe p.1 = true) ∧
+  (∀ p, headerParts c replace info (Py.replace text ['\n'] ['\n']) = .ok p →
+    (encodeUtf8 (headPart p.1 p.2.1)).length ≤ 4096 ∧ '\r' ∉ headPart p.1 p.2.1) ∧
+  noIgnoreStart (decodedText (window (encodeUtf8 out))) = true ∧
+  (∀ x ∈ (extractRaw (decodedText (window (encodeUtf8 out)))).lic, c.parses x = true)
+
+/-- **…and lint reads it back.**  Exit status 0 ⇒ for every attempted path `t` with "\n" line
+    endings and no byte order mark, what `reuse_info_of_file` — the function `reuse lint` calls on
+    the *bytes* of the file — yields for the bytes the command left at `t` declares every requested
+    copyright line and licence expression; under the hypotheses of `C07_lint_reads_back` on the
+    written text (`LintReadable`: the header block is a block of closed tag lines, it ends within
+    lint's 4096-byte window, no ignore region opens and every expression in the window parses —
+    each failing exactly for a documented finding of C07). -/
+theorem C07_e2e_lint_reads_back (w : AE.World) (o : Opts) (fs : Fs) (ps : List Path) (p t : Path) (txt : Text)
+    (hc : clickRejects w o = false)
+    (hpre : preflight (envOf w o fs) (argsOf o) fs = .ok ps) (hsep : Separate ps) (hwf : ∀ q ∈ ps, WfPath q)
+    (hnl : ∀ q ∈ ps, ∀ x ∈ writeSet q, Fs.isLink fs x = false)
+    (hexit : (annotateE2E w o fs).2 = 0)
+    (hp : p ∈ ps) (hatt : attempt (envOf w o fs) (argsOf o) fs p = some (t, txt))
+    (hmerge : o.mergeCopyrights = false) (hnorm : ∀ x, w.normLic (w.normLic x) = w.normLic x)
+    (hbom : dropBom txt = txt) (hle : detectLineEnding txt = ['\n'])
+    (hread : ∀ s out, styleFor o t = some s →
+      annotateText (cfgFor w o fs s) (!o.noReplace) false (requested w o) txt = .written out →
+      LintReadable (cfgFor w o fs s) (!o.noReplace) (requested w o) txt out)
+    (hsome : (requested w o).cpr ≠ [] ∨ (requested w o).lic ≠ []) :
+    ∃ out, (annotateE2E w o fs).1 t = some (.file out) ∧
+      Declares w.normLic (infoOfFile w.parses (encodeUtf8 out)) (requested w o).cpr (requested w o).lic := by
+  obtain ⟨hu, hnr⟩ := (C11.C11_e2e_exit w o fs ps hc hpre hsep hwf hnl).2.mp hexit p hp t txt hatt
+  have hfin := C11.C11_e2e_each_alone w o fs ps p t txt hc hpre hsep hwf hp
+    (hnl p hp _ (by simp [writeSet])) hatt
+  cases hb : build w o (tmplOf w o fs) t txt with
+  | error e =>
+    rcases (build_error_iff w o fs t txt).mp ⟨e, hb⟩ with h | h
+    · rw [hu] at h; cases h
+    · exact (hnr h).elim
+  | ok out =>
+    rw [hb] at hfin
+    obtain ⟨s, out', hs, hA, hout⟩ := build_ok_text hb
+    rw [hbom] at hA
+    have hb0 : bomOf txt = [] := by
+      cases txt with
+      | nil => rfl
+      | cons ch rest =>
+        unfold dropBom at hbom
+        unfold bomOf
+        by_cases hch : (ch == bomChar) = true
+        · simp only [hch, if_true] at hbom
+          have := congrArg List.length hbom
+          simp at this
+        · simp [hch]
+    rw [hb0, List.nil_append] at hout
+    subst hout
+    obtain ⟨h1, h2, h3, h4⟩ := hread s out hs hA
+    exact ⟨out, hfin, C07_lint_reads_back (cfgFor w o fs s) (!o.noReplace) false (requested w o) txt out
+      hmerge hnorm hle hA h1 h2 h3 h4 hsome⟩
+
+/-! ### non-vacuity: `reuse annotate -c "Jane Doe <jane@example.org>" -y 2020 -l MIT -l "GPL-2.0-or-later OR (…)"
+--contributor … a.py` on a tree holding `a.py` — the hypotheses of `C07_e2e_readback` hold together,
+exit status 0 included (derived from `C07_default_achievable`, the extraction itself is not
+kernel-evaluated) -/
+
+def e2eWorld : AE.World where
+  curYear := "2026".toList
+  parses := fun _ => true
+  normLic := id
+  binary := fun _ => false
+  unreadable := fun _ => false
+  below := fun _ => []
+  renderOf := fun _ _ => []
+
+def e2eOpts : Opts where
+  copyrights := ["Jane Doe <jane@example.org>".toList]
+  licenses := ["MIT".toList, "GPL-2.0-or-later OR (Apache-2.0 AND BSD-3-Clause)".toList]
+  contributors := ["Jane Doe <jane@example.org>".toList]
+  years := ["2020".toList]
+  excludeYear := false
+  prefixKey := none
+  style := none
+  template := none
+  mergeCopyrights := false
+  single := false
+  multi := false
+  recursive := false
+  noReplace := false
+  forceDot := false
+  fallbackDot := false
+  skipUnrec := false
+  skipExisting := false
+  paths := ["a.py".toList]
+
+def e2eFs : Fs := Fs.ofList [("a.py".toList, .file "x = 1\n".toList)]
+
+theorem e2e_example_hyps :
+    clickRejects e2eWorld e2eOpts = false ∧
+    (preflight (envOf e2eWorld e2eOpts e2eFs) (argsOf e2eOpts) e2eFs).toOption = some ["a.py".toList] ∧
+    Separate ["a.py".toList] ∧ (∀ q ∈ ["a.py".toList], WfPath q) ∧
+    (∀ q ∈ ["a.py".toList], ∀ x ∈ writeSet q, Fs.isLink e2eFs x = false) ∧
+    attempt (envOf e2eWorld e2eOpts e2eFs) (argsOf e2eOpts) e2eFs "a.py".toList = some ("a.py".toList, "x = 1\n".toList) ∧
+    requested e2eWorld e2eOpts = exampleRequest := by
+  refine ⟨by decide +kernel, by decide +kernel, by decide, by decide, by decide +kernel, by decide +kernel, by decide +kernel⟩
+
+theorem e2e_example_pre :
+    preflight (envOf e2eWorld e2eOpts e2eFs) (argsOf e2eOpts) e2eFs = .ok ["a.py".toList] := by
+  have hpre := e2e_example_hyps.2.1
+  cases h : preflight (envOf e2eWorld e2eOpts e2eFs) (argsOf e2eOpts) e2eFs with
+  | error e => rw [h] at hpre; cases hpre
+  | ok ps => rw [h] at hpre; simp only [Except.toOption, Option.some.injEq] at hpre; rw [hpre]
+
+/-- … and the command exits with status 0 on it -/
+theorem e2e_example_exit : (annotateE2E e2eWorld e2eOpts e2eFs).2 = 0 := by
+  obtain ⟨hc, -, hsep, hwf, hnl, hatt, hreq⟩ := e2e_example_hyps
+  have hpre' := e2e_example_pre
+  rw [(C11.C11_e2e_exit e2eWorld e2eOpts e2eFs _ hc hpre' hsep hwf hnl).2]
+  intro p hp t txt ha
+  simp only [List.mem_cons, List.not_mem_nil, or_false] at hp
+  subst hp
+  rw [hatt] at ha
+  simp only [Option.some.injEq, Prod.mk.injEq] at ha
+  obtain ⟨rfl, rfl⟩ := ha
+  refine ⟨rfl, ?_⟩
+  rintro ⟨s, e, hs, he⟩
+  have hname : commentStyleName "a.py".toList = some "PythonCommentStyle" := by decide +kernel
+  obtain ⟨sty, hsty⟩ := Option.isSome_iff_exists.mp python_style_exists
+  have hs' : s = C07A.styleNamed "PythonCommentStyle" := by
+    simp only [styleFor, writtenStyle, forced, e2eOpts, Option.bind_none, genStyleOf, hname, Option.bind_some, hsty,
+      Option.orElse] at hs
+    simp only [C07A.styleNamed, hsty, Option.getD_some]
+    cases hs; rfl
+  subst hs'
+  have hold : oldHeader (cfgFor e2eWorld e2eOpts e2eFs (C07A.styleNamed "PythonCommentStyle")) (!e2eOpts.noReplace)
+      (workText "x = 1\n".toList) = [] := by decide +kernel
+  rw [hold, hreq] at he
+  obtain ⟨h, hok, -⟩ := C07_default_achievable (cfgFor e2eWorld e2eOpts e2eFs (C07A.styleNamed "PythonCommentStyle"))
+    exampleRequest .single (C07A.styleNamed_mem _ python_style_exists) rfl rfl (by decide +kernel) C07_example_request
+  have : createHeader (cfgFor e2eWorld e2eOpts e2eFs (C07A.styleNamed "PythonCommentStyle")) exampleRequest [] = .ok h := by
+    unfold createHeader
+    simpa [cfgFor, hdrCfg, e2eOpts] using hok
+  rw [this] at he
+  cases he
+
+-- `C07_e2e_readback` and `C07_e2e_written_is_lint_source` applied to it
+example : ∃ s pre hdr post, styleFor e2eOpts "a.py".toList = some s ∧
+    (annotateE2E e2eWorld e2eOpts e2eFs).1 "a.py".toList = some (.file (bomOf "x = 1\n".toList ++
+      retranslate (detectLineEnding (dropBom "x = 1\n".toList)) (pre ++ hdr ++ ['\n'] ++ post))) ∧
+    (pre = [] ∨ ∃ q, pre = q ++ ['\n']) ∧
+    Declares id (extractRaw hdr) exampleRequest.cpr exampleRequest.lic := by
+  obtain ⟨hc, -, hsep, hwf, hnl, hatt, hreq⟩ := e2e_example_hyps
+  obtain ⟨s, pre, hdr, post, h1, h2, h3, h4, -⟩ := C07_e2e_readback e2eWorld e2eOpts e2eFs _ _ _ _ hc e2e_example_pre
+    hsep hwf hnl e2e_example_exit (by simp) hatt rfl (fun _ => rfl)
+  rw [hreq] at h4
+  exact ⟨s, pre, hdr, post, h1, h2, h3, h4⟩
+
+end E2E
 
 end C07
